@@ -569,82 +569,85 @@ SPECIAL_FLOORS = {
                      'dotted:variant:last': 120, 'dotted:variant:pop': 22, 'dotted:variant:set': 180,
                      'dotted:variant:setdefault': 2, 'dotted:variant:update': 63, 'special:nontrivial': 1300}},
     'thorough': {
-        'monitors': {'M.blank': 520000, 'M.blankb': 130000, 'M.dotted': 270000},
-        'counters': {'blank:clear': 2400, 'blank:copy:Deb822': 2700, 'blank:copy:Deb822Dict': 2700, 'blank:copy:copy':
-                     2800, 'blank:copy:ctor': 3100, 'blank:copy:ctor-dict': 2700, 'blank:copy:ctor-dict-items': 2600,
-                     'blank:copy:ctor-item-list': 2700, 'blank:copy:ctor-items': 2700, 'blank:copy:dict': 1900,
-                     'blank:copy:dict-items': 1900, 'blank:copy:list': 1900, 'blank:copy:list-items': 1900,
-                     'blank:copy:list-keys': 2000, 'blank:copy:list-values': 1900, 'blank:copy:tuple-items': 1900,
-                     'blank:cycle:bytes': 960, 'blank:cycle:fd-bytes': 960, 'blank:cycle:fd-text': 960,
-                     'blank:cycle:file-bytes': 960, 'blank:cycle:file-text': 960, 'blank:cycle:iter': 960,
-                     'blank:cycle:iter-bytes': 960, 'blank:cycle:lines': 960, 'blank:cycle:lines-bytes': 960,
-                     'blank:cycle:str': 960, 'blank:cycled:U+001C': 1200, 'blank:cycled:U+001D': 960,
-                     'blank:cycled:U+001E': 960, 'blank:cycled:U+001F': 1800, 'blank:cycled:U+0085': 960,
-                     'blank:cycled:U+00A0': 3900, 'blank:cycled:U+1680': 1200, 'blank:cycled:U+2000': 1300,
-                     'blank:cycled:U+2001': 1200, 'blank:cycled:U+2002': 1200, 'blank:cycled:U+2003': 1600,
+        'monitors': {'M.blank': 590000, 'M.blankb': 160000, 'M.dotted': 310000},
+        'counters': {'blank:clear': 2600, 'blank:copy:Deb822': 2700, 'blank:copy:Deb822Dict': 2800, 'blank:copy:copy':
+                     3000, 'blank:copy:ctor': 3300, 'blank:copy:ctor-dict': 2900, 'blank:copy:ctor-dict-items': 2800,
+                     'blank:copy:ctor-item-list': 2800, 'blank:copy:ctor-items': 2800, 'blank:copy:dict': 2000,
+                     'blank:copy:dict-items': 1900, 'blank:copy:list': 2000, 'blank:copy:list-items': 2000,
+                     'blank:copy:list-keys': 2000, 'blank:copy:list-values': 2100, 'blank:copy:tuple-items': 2000,
+                     'blank:cycle:bytes': 2200, 'blank:cycle:fd-bytes': 2100, 'blank:cycle:fd-text': 1200,
+                     'blank:cycle:file-bytes': 2000, 'blank:cycle:file-text': 1100, 'blank:cycle:iter': 1300,
+                     'blank:cycle:iter-bytes': 2000, 'blank:cycle:lines': 2200, 'blank:cycle:lines-bytes': 1900,
+                     'blank:cycle:str': 1300, 'blank:cycled:U+001C': 1300, 'blank:cycled:U+001D': 1100,
+                     'blank:cycled:U+001E': 1100, 'blank:cycled:U+001F': 1900, 'blank:cycled:U+0085': 1100,
+                     'blank:cycled:U+00A0': 4100, 'blank:cycled:U+1680': 1200, 'blank:cycled:U+2000': 1400,
+                     'blank:cycled:U+2001': 1100, 'blank:cycled:U+2002': 1200, 'blank:cycled:U+2003': 1700,
                      'blank:cycled:U+2004': 1200, 'blank:cycled:U+2005': 1200, 'blank:cycled:U+2006': 1100,
-                     'blank:cycled:U+2007': 1600, 'blank:cycled:U+2008': 1200, 'blank:cycled:U+2009': 1600,
-                     'blank:cycled:U+200A': 1600, 'blank:cycled:U+2028': 1200, 'blank:cycled:U+2029': 960,
-                     'blank:cycled:U+202F': 1300, 'blank:cycled:U+205F': 1200, 'blank:cycled:U+3000': 1200,
-                     'blank:fail:self-relative-variant': 16000, 'blank:failed-op': 96000, 'blank:parsed:U+001C': 8000,
-                     'blank:parsed:U+001D': 680, 'blank:parsed:U+001E': 680, 'blank:parsed:U+001F': 8800,
-                     'blank:parsed:U+0085': 5600, 'blank:parsed:U+00A0': 12000, 'blank:parsed:U+1680': 5900,
-                     'blank:parsed:U+2000': 1000, 'blank:parsed:U+2001': 960, 'blank:parsed:U+2002': 960,
-                     'blank:parsed:U+2003': 6200, 'blank:parsed:U+2004': 1000, 'blank:parsed:U+2005': 960,
-                     'blank:parsed:U+2006': 880, 'blank:parsed:U+2007': 1200, 'blank:parsed:U+2008': 880,
-                     'blank:parsed:U+2009': 1200, 'blank:parsed:U+200A': 1200, 'blank:parsed:U+2028': 10000,
-                     'blank:parsed:U+2029': 710, 'blank:parsed:U+202F': 960, 'blank:parsed:U+205F': 960,
-                     'blank:parsed:U+3000': 10000, 'blank:popitem': 3400, 'blank:reinit': 960,
-                     'blank:sort:caller-key': 5200, 'blank:sort:default': 12000, 'blank:sort:moved': 14000,
-                     'blank:sort:stored-key': 6100, 'blank:start:dict': 25000, 'blank:start:iter': 1200,
-                     'blank:start:iter-bytes': 1100, 'blank:start:lazy': 7200, 'blank:start:lazy-bytes': 4100,
-                     'blank:start:pairs': 1100, 'blank:start:parsed-bytes': 12000, 'blank:start:parsed-lines': 8800,
-                     'blank:start:parsed-lines-bytes': 960, 'blank:start:parsed-str': 7000,
-                     'blank:variant:after-item': 20000, 'blank:variant:after-ref': 22000, 'blank:variant:before-item':
-                     23000, 'blank:variant:before-ref': 24000, 'blank:variant:del': 13000, 'blank:variant:first':
-                     14000, 'blank:variant:get': 4000, 'blank:variant:in': 3400, 'blank:variant:last': 16000,
-                     'blank:variant:pop': 4600, 'blank:variant:set': 23000, 'blank:variant:setdefault': 2900,
-                     'blank:variant:update': 6300, 'blankb:copy:Deb822': 600, 'blankb:copy:Deb822Dict': 570,
-                     'blankb:copy:ctor': 610, 'blankb:copy:ctor-dict-items': 580, 'blankb:copy:ctor-item-list': 610,
-                     'blankb:copy:ctor-items': 620, 'blankb:copy:dict': 430, 'blankb:copy:list-items': 440,
-                     'blankb:copy:list-values': 440, 'blankb:cycle:bytes': 530, 'blankb:cycle:fd-bytes': 530,
-                     'blankb:cycle:file-bytes': 530, 'blankb:cycle:iter-bytes': 530, 'blankb:cycle:lines': 530,
-                     'blankb:cycle:lines-bytes': 530, 'blankb:fail:self-relative-variant': 4600, 'blankb:failed-op':
-                     26000, 'blankb:sort:caller-key': 1200, 'blankb:sort:default': 3500, 'blankb:sort:moved': 3800,
-                     'blankb:sort:stored-key': 1200, 'blankb:start:dict': 8000, 'blankb:start:iter-bytes': 470,
-                     'blankb:start:lazy-bytes': 3100, 'blankb:start:parsed-bytes': 6000, 'blankb:start:parsed-lines':
-                     2800, 'blankb:start:parsed-lines-bytes': 390, 'blankb:variant:after-item': 5800,
-                     'blankb:variant:after-ref': 6400, 'blankb:variant:before-item': 6600,
-                     'blankb:variant:before-ref': 7000, 'blankb:variant:del': 3600, 'blankb:variant:first': 3400,
-                     'blankb:variant:get': 780, 'blankb:variant:in': 740, 'blankb:variant:last': 4700,
-                     'blankb:variant:pop': 730, 'blankb:variant:set': 6000, 'blankb:variant:setdefault': 600,
-                     'blankb:variant:update': 1200, 'dotted:assign-through-lenvariant-adds-no-field': 8800,
-                     'dotted:clear': 1200, 'dotted:copy:Deb822': 1200, 'dotted:copy:Deb822Dict': 1200,
-                     'dotted:copy:copy': 1300, 'dotted:copy:ctor': 1400, 'dotted:copy:ctor-dict': 1200,
-                     'dotted:copy:ctor-dict-items': 1200, 'dotted:copy:ctor-item-list': 1200,
-                     'dotted:copy:ctor-items': 1200, 'dotted:copy:dict': 880, 'dotted:copy:dict-items': 880,
-                     'dotted:copy:list': 880, 'dotted:copy:list-items': 960, 'dotted:copy:list-keys': 960,
-                     'dotted:copy:list-values': 960, 'dotted:copy:tuple-items': 880, 'dotted:cycle:bytes': 490,
-                     'dotted:cycle:fd-bytes': 490, 'dotted:cycle:fd-text': 490, 'dotted:cycle:file-bytes': 490,
-                     'dotted:cycle:file-text': 490, 'dotted:cycle:iter': 490, 'dotted:cycle:iter-bytes': 490,
-                     'dotted:cycle:lines': 490, 'dotted:cycle:lines-bytes': 490, 'dotted:cycle:str': 490,
-                     'dotted:fail:self-relative-lenvariant': 6300, 'dotted:fail:self-relative-variant': 8000,
-                     'dotted:failed-op': 48000, 'dotted:lenvariant:after-item': 7100, 'dotted:lenvariant:after-ref':
-                     7600, 'dotted:lenvariant:before-item': 8000, 'dotted:lenvariant:before-ref': 8000,
-                     'dotted:lenvariant:del': 4800, 'dotted:lenvariant:first': 4500, 'dotted:lenvariant:get': 1200,
-                     'dotted:lenvariant:in': 1100, 'dotted:lenvariant:last': 5700, 'dotted:lenvariant:pop': 1400,
-                     'dotted:lenvariant:set': 8000, 'dotted:lenvariant:setdefault': 960, 'dotted:lenvariant:update':
-                     2000, 'dotted:popitem': 1600, 'dotted:reinit': 550, 'dotted:sort:caller-key': 2500,
-                     'dotted:sort:default': 6900, 'dotted:sort:moved': 7600, 'dotted:sort:stored-key': 2800,
-                     'dotted:start:dict': 13000, 'dotted:start:iter': 770, 'dotted:start:iter-bytes': 470,
-                     'dotted:start:lazy': 6300, 'dotted:start:lazy-bytes': 640, 'dotted:start:pairs': 560,
-                     'dotted:start:parsed-bytes': 6200, 'dotted:start:parsed-lines': 3400,
-                     'dotted:start:parsed-lines-bytes': 360, 'dotted:start:parsed-str': 6200,
-                     'dotted:variant:after-item': 8800, 'dotted:variant:after-ref': 10000,
-                     'dotted:variant:before-item': 10000, 'dotted:variant:before-ref': 10000, 'dotted:variant:del':
-                     6600, 'dotted:variant:first': 5900, 'dotted:variant:get': 1700, 'dotted:variant:in': 1600,
-                     'dotted:variant:last': 8000, 'dotted:variant:pop': 2000, 'dotted:variant:set': 10000,
-                     'dotted:variant:setdefault': 1400, 'dotted:variant:update': 2800, 'special:nontrivial': 74000}},
+                     'blank:cycled:U+2007': 1600, 'blank:cycled:U+2008': 1200, 'blank:cycled:U+2009': 1700,
+                     'blank:cycled:U+200A': 1600, 'blank:cycled:U+2028': 1400, 'blank:cycled:U+2029': 1000,
+                     'blank:cycled:U+202F': 1400, 'blank:cycled:U+205F': 1200, 'blank:cycled:U+3000': 1300,
+                     'blank:fail:self-relative-variant': 19000, 'blank:failed-op': 100000, 'blank:parsed:U+001C':
+                     10000, 'blank:parsed:U+001D': 740, 'blank:parsed:U+001E': 700, 'blank:parsed:U+001F': 10000,
+                     'blank:parsed:U+0085': 6900, 'blank:parsed:U+00A0': 16000, 'blank:parsed:U+1680': 7200,
+                     'blank:parsed:U+2000': 1100, 'blank:parsed:U+2001': 1000, 'blank:parsed:U+2002': 970,
+                     'blank:parsed:U+2003': 7500, 'blank:parsed:U+2004': 1100, 'blank:parsed:U+2005': 1000,
+                     'blank:parsed:U+2006': 920, 'blank:parsed:U+2007': 1300, 'blank:parsed:U+2008': 1000,
+                     'blank:parsed:U+2009': 1300, 'blank:parsed:U+200A': 1200, 'blank:parsed:U+2028': 13000,
+                     'blank:parsed:U+2029': 700, 'blank:parsed:U+202F': 1000, 'blank:parsed:U+205F': 1000,
+                     'blank:parsed:U+3000': 13000, 'blank:popitem': 3700, 'blank:reinit': 1100,
+                     'blank:sort:caller-key': 5300, 'blank:sort:default': 14000, 'blank:sort:moved': 16000,
+                     'blank:sort:stored-key': 6500, 'blank:start:dict': 31000, 'blank:start:iter': 1300,
+                     'blank:start:iter-bytes': 1200, 'blank:start:lazy': 8500, 'blank:start:lazy-bytes': 4800,
+                     'blank:start:pairs': 1200, 'blank:start:parsed-bytes': 15000, 'blank:start:parsed-lines': 11000,
+                     'blank:start:parsed-lines-bytes': 1000, 'blank:start:parsed-str': 8300,
+                     'blank:variant:after-item': 23000, 'blank:variant:after-ref': 25000, 'blank:variant:before-item':
+                     26000, 'blank:variant:before-ref': 28000, 'blank:variant:del': 16000, 'blank:variant:first':
+                     15000, 'blank:variant:get': 4100, 'blank:variant:in': 3500, 'blank:variant:last': 19000,
+                     'blank:variant:pop': 4900, 'blank:variant:set': 26000, 'blank:variant:setdefault': 2900,
+                     'blank:variant:update': 6300, 'blankb:copy:Deb822': 620, 'blankb:copy:Deb822Dict': 610,
+                     'blankb:copy:copy': 660, 'blankb:copy:ctor': 650, 'blankb:copy:ctor-dict': 630,
+                     'blankb:copy:ctor-dict-items': 660, 'blankb:copy:ctor-item-list': 620, 'blankb:copy:ctor-items':
+                     660, 'blankb:copy:dict': 460, 'blankb:copy:dict-items': 460, 'blankb:copy:list': 460,
+                     'blankb:copy:list-items': 510, 'blankb:copy:list-keys': 500, 'blankb:copy:list-values': 520,
+                     'blankb:copy:tuple-items': 470, 'blankb:cycle:bytes': 740, 'blankb:cycle:fd-bytes': 710,
+                     'blankb:cycle:file-bytes': 780, 'blankb:cycle:iter-bytes': 730, 'blankb:cycle:lines': 750,
+                     'blankb:cycle:lines-bytes': 710, 'blankb:fail:self-relative-variant': 5400, 'blankb:failed-op':
+                     31000, 'blankb:sort:caller-key': 1200, 'blankb:sort:default': 4200, 'blankb:sort:moved': 4500,
+                     'blankb:sort:stored-key': 1400, 'blankb:start:dict': 10000, 'blankb:start:iter-bytes': 500,
+                     'blankb:start:lazy-bytes': 3700, 'blankb:start:pairs': 220, 'blankb:start:parsed-bytes': 7400,
+                     'blankb:start:parsed-lines': 3500, 'blankb:start:parsed-lines-bytes': 400,
+                     'blankb:variant:after-item': 6900, 'blankb:variant:after-ref': 7700,
+                     'blankb:variant:before-item': 7900, 'blankb:variant:before-ref': 8200, 'blankb:variant:del':
+                     4300, 'blankb:variant:first': 3900, 'blankb:variant:get': 840, 'blankb:variant:in': 750,
+                     'blankb:variant:last': 5400, 'blankb:variant:pop': 780, 'blankb:variant:set': 7100,
+                     'blankb:variant:setdefault': 620, 'blankb:variant:update': 1200,
+                     'dotted:assign-through-lenvariant-adds-no-field': 10000, 'dotted:clear': 1300,
+                     'dotted:copy:Deb822': 1300, 'dotted:copy:Deb822Dict': 1300, 'dotted:copy:copy': 1400,
+                     'dotted:copy:ctor': 1500, 'dotted:copy:ctor-dict': 1400, 'dotted:copy:ctor-dict-items': 1300,
+                     'dotted:copy:ctor-item-list': 1300, 'dotted:copy:ctor-items': 1300, 'dotted:copy:dict': 960,
+                     'dotted:copy:dict-items': 990, 'dotted:copy:list': 1000, 'dotted:copy:list-items': 990,
+                     'dotted:copy:list-keys': 1000, 'dotted:copy:list-values': 950, 'dotted:copy:tuple-items': 970,
+                     'dotted:cycle:bytes': 790, 'dotted:cycle:fd-bytes': 750, 'dotted:cycle:fd-text': 670,
+                     'dotted:cycle:file-bytes': 630, 'dotted:cycle:file-text': 570, 'dotted:cycle:iter': 710,
+                     'dotted:cycle:iter-bytes': 650, 'dotted:cycle:lines': 750, 'dotted:cycle:lines-bytes': 650,
+                     'dotted:cycle:str': 710, 'dotted:fail:self-relative-lenvariant': 7100,
+                     'dotted:fail:self-relative-variant': 8700, 'dotted:failed-op': 53000,
+                     'dotted:lenvariant:after-item': 8100, 'dotted:lenvariant:after-ref': 8800,
+                     'dotted:lenvariant:before-item': 9200, 'dotted:lenvariant:before-ref': 9600,
+                     'dotted:lenvariant:del': 5400, 'dotted:lenvariant:first': 5000, 'dotted:lenvariant:get': 1300,
+                     'dotted:lenvariant:in': 1100, 'dotted:lenvariant:last': 6500, 'dotted:lenvariant:pop': 1500,
+                     'dotted:lenvariant:set': 9100, 'dotted:lenvariant:setdefault': 1000, 'dotted:lenvariant:update':
+                     2100, 'dotted:popitem': 1900, 'dotted:reinit': 570, 'dotted:sort:caller-key': 2600,
+                     'dotted:sort:default': 8200, 'dotted:sort:moved': 8500, 'dotted:sort:stored-key': 3000,
+                     'dotted:start:dict': 17000, 'dotted:start:iter': 810, 'dotted:start:iter-bytes': 470,
+                     'dotted:start:lazy': 7600, 'dotted:start:lazy-bytes': 690, 'dotted:start:pairs': 620,
+                     'dotted:start:parsed-bytes': 7500, 'dotted:start:parsed-lines': 4000,
+                     'dotted:start:parsed-lines-bytes': 380, 'dotted:start:parsed-str': 7500,
+                     'dotted:variant:after-item': 10000, 'dotted:variant:after-ref': 12000,
+                     'dotted:variant:before-item': 12000, 'dotted:variant:before-ref': 12000, 'dotted:variant:del':
+                     7500, 'dotted:variant:first': 6500, 'dotted:variant:get': 1900, 'dotted:variant:in': 1600,
+                     'dotted:variant:last': 9500, 'dotted:variant:pop': 2100, 'dotted:variant:set': 12000,
+                     'dotted:variant:setdefault': 1400, 'dotted:variant:update': 3000, 'special:nontrivial': 87000}},
 }
 # the tolerated-unspecified probes are a fixed list run by every shard: their floors (pairs x 2 classes = one
 # shard's worth, built below) only say "they ran", never anything about their outcome
